@@ -554,6 +554,7 @@ impl Compress {
             compressed.extend_from_slice(&packet[offset..offset_next]);
             offset = offset_next;
             if label_len == 0 {
+                dict.commit(0);
                 break;
             }
         }
@@ -599,6 +600,9 @@ const MAX_SUFFIXES: usize = 32;
 struct Suffix {
     offset: usize,
     len: usize,
+    /// Number of indirections followed when decoding the name stored at
+    /// `offset`, or `u16::MAX` while the name is still being written.
+    depth: u16,
     suffix: [u8; MAX_SUFFIX_LEN],
 }
 
@@ -607,6 +611,7 @@ impl Default for Suffix {
         Self {
             offset: 0,
             len: 0,
+            depth: 0,
             suffix: [0u8; MAX_SUFFIX_LEN],
         }
     }
@@ -638,10 +643,15 @@ impl SuffixDict {
         }
         for i in 0..self.count {
             let candidate = &self.suffixes[i];
-            if candidate.len <= suffix_len
+            // A pointer to `candidate` adds one indirection to the ones already
+            // needed to decode it; names must stay within what `parse()` accepts.
+            if candidate.depth < DNS_MAX_HOSTNAME_INDIRECTIONS
+                && candidate.len <= suffix_len
                 && Self::raw_names_eq_ignore_case(suffix, &candidate.suffix[..candidate.len])
             {
-                return Some(candidate.offset);
+                let (offset, depth) = (candidate.offset, candidate.depth + 1);
+                self.commit(depth);
+                return Some(offset);
             }
         }
 
@@ -650,6 +660,7 @@ impl SuffixDict {
         debug_assert_eq!(len, suffix_len);
         entry.len = suffix_len;
         entry.offset = offset;
+        entry.depth = u16::MAX;
         self.index += 1;
         self.count = cmp::max(self.index, self.count);
         if self.index == MAX_SUFFIXES {
@@ -658,6 +669,16 @@ impl SuffixDict {
                             // question
         }
         None
+    }
+
+    /// Records the number of indirections of the suffixes registered for the
+    /// name that has just been written.
+    fn commit(&mut self, depth: u16) {
+        for suffix in self.suffixes[..self.count].iter_mut() {
+            if suffix.depth == u16::MAX {
+                suffix.depth = depth;
+            }
+        }
     }
 
     /// Copy a trusted raw DNS name into a `to` slice.
